@@ -418,3 +418,156 @@ theorem strLoopO_sound (o : ParseOptions) {bad : Bool} : ∀ (fuel : List Char),
     exact ⟨hN, some_of (f :: fuel) hN (fun f' fuel' e => by cases e; exact ihN)⟩
 
 end JsonVerif
+
+namespace JsonVerif
+
+/-- a body never makes the text after it look like a low-surrogate escape unless it already does -/
+theorem lbody_startsLow {o : ParseOptions} {ts cs : List Char} (hb : LBody o ts cs) (r : List Char)
+    (h : StartsLow (ts ++ '"' :: r)) : StartsLow ts := by
+  obtain ⟨a, b, c, d, lo, r0, he, hlo, hl⟩ := h
+  cases hb with
+  | nil => simp at he
+  | elem t ch ts' cs' hel hb' =>
+    cases hel with
+    | raw c' h1 h2 h3 => simp at he; exact absurd he.1 h2
+    | esc e ch' h1 h2 => simp at he; exact absurd he.1 h1
+    | u a' b' c' d' cp ch' h1 h2 h3 =>
+      simp at he
+      obtain ⟨rfl, rfl, rfl, rfl, _⟩ := he
+      exact ⟨a', b', c', d', lo, ts', by simp, hlo, hl⟩
+    | pair a' b' c' d' a'' b'' c'' d'' hi lo' ch' h1 h2 h3 h4 h5 =>
+      simp at he
+      obtain ⟨rfl, rfl, rfl, rfl, _⟩ := he
+      exact ⟨a', b', c', d', lo, '\\' :: 'u' :: a'' :: b'' :: c'' :: d'' :: ts', by simp, hlo, hl⟩
+  | loneHigh a' b' c' d' hi ts' cs' ht h1 h2 hn hb' =>
+    simp at he
+    obtain ⟨rfl, rfl, rfl, rfl, _⟩ := he
+    exact ⟨a', b', c', d', lo, ts', rfl, hlo, hl⟩
+  | loneLow a' b' c' d' lo' ts' cs' hi h1 h2 hb' =>
+    simp at he
+    obtain ⟨rfl, rfl, rfl, rfl, _⟩ := he
+    exact ⟨a', b', c', d', lo, ts', rfl, hlo, hl⟩
+
+/-- **Exactness, completeness half**: every `LBody o` followed by the closing quote is read to that
+    quote under `o`, and the characters it denotes are returned. -/
+theorem strLoopO_complete {o : ParseOptions} {bad : Bool} {t cs : List Char} (hb : LBody o t cs) :
+    ∀ (fuel acc r : List Char) (pos : Nat), t.length ≤ fuel.length →
+      ∃ p q, strLoopAux o bad fuel acc none (t ++ '"' :: r) pos = .ok (acc ++ cs, r, p, q) := by
+  induction hb with
+  | nil =>
+    intro fuel acc r pos _
+    exact ⟨pos + '"'.utf8Size, pos, by unfold strLoopAux; simp [strStepO_quote]⟩
+  | elem te ch ts cs hel _ ih =>
+    intro fuel acc r pos hf
+    have hlen := gelem_len hel
+    cases fuel with
+    | nil => simp only [List.length_append, List.length_nil] at hf; omega
+    | cons f fuel =>
+      simp only [List.length_append, List.length_cons] at hf
+      cases hel with
+      | raw c h1 h2 h3 =>
+        obtain ⟨p, q, h⟩ := ih fuel (acc ++ [ch]) r (pos + ch.utf8Size) (by simp at hf; omega)
+        refine ⟨p, q, ?_⟩
+        unfold strLoopAux
+        simp only [List.cons_append, List.nil_append, strStepO_raw o bad acc _ pos h1 h2 h3]
+        rw [h]; simp
+      | esc e ch h1 h2 =>
+        obtain ⟨p1, hs⟩ := strStepO_esc o bad acc (ts ++ '"' :: r) pos h1 h2
+        obtain ⟨p, q, h⟩ := ih fuel (acc ++ [ch]) r p1 (by simp at hf; omega)
+        refine ⟨p, q, ?_⟩
+        unfold strLoopAux
+        simp only [List.cons_append, List.nil_append, hs]
+        rw [h]; simp
+      | u a b c d cp ch h1 h2 h3 =>
+        obtain ⟨p1, hs⟩ := strStepO_u o bad acc (ts ++ '"' :: r) pos h1 h2 h3
+        obtain ⟨p, q, h⟩ := ih fuel (acc ++ [ch]) r p1 (by simp at hf; omega)
+        refine ⟨p, q, ?_⟩
+        unfold strLoopAux
+        simp only [List.cons_append, List.nil_append, hs]
+        rw [h]; simp
+      | pair a b c d a' b' c' d' hi lo ch h1 h2 h3 h4 h5 =>
+        obtain ⟨pe, p1, hs1⟩ := strStepO_high o bad acc ('\\' :: 'u' :: a' :: b' :: c' :: d' :: (ts ++ '"' :: r)) pos h1 h2
+        obtain ⟨p2, hs2⟩ := strStepO_pair (o := o) bad acc (ts ++ '"' :: r) p1 pe hi h3 h4 h5
+        cases fuel with
+        | nil => simp at hf; omega
+        | cons f2 fuel =>
+          obtain ⟨p, q, h⟩ := ih fuel (acc ++ [ch]) r p2 (by simp at hf; omega)
+          refine ⟨p, q, ?_⟩
+          unfold strLoopAux
+          simp only [List.cons_append, List.nil_append, hs1]
+          unfold strLoopAux
+          simp only [hs2]
+          rw [h]; simp
+  | loneHigh a b c d hi ts cs ht h1 h2 hn hb' ih =>
+    intro fuel acc r pos hf
+    obtain ⟨pe, p1, hs1⟩ := strStepO_high o bad acc (ts ++ '"' :: r) pos h1 h2
+    cases fuel with
+    | nil => simp at hf
+    | cons f fuel =>
+      obtain ⟨p, q, h⟩ := ih fuel (acc ++ [fffd]) r p1 (by simp at hf; omega)
+      refine ⟨p, q, ?_⟩
+      unfold strLoopAux
+      simp only [List.cons_append, hs1]
+      rw [strLoopAux_trunc ht bad fuel acc _ p1 pe hi (fun hs => hn (lbody_startsLow hb' r hs)), h]
+      simp
+  | loneLow a b c d lo ts cs hinv h1 h2 hb' ih =>
+    intro fuel acc r pos hf
+    obtain ⟨p1, hs1⟩ := strStepO_loneLow hinv bad acc (ts ++ '"' :: r) pos h1 h2
+    cases fuel with
+    | nil => simp at hf
+    | cons f fuel =>
+      obtain ⟨p, q, h⟩ := ih fuel (acc ++ [fffd]) r p1 (by simp at hf; omega)
+      refine ⟨p, q, ?_⟩
+      unfold strLoopAux
+      simp only [List.cons_append, hs1]
+      rw [h]; simp
+
+/-- **C12 at the string level, both directions**: under any option record the string lexer accepts
+    exactly the `LString o` literals and returns the characters they denote. -/
+theorem lexString_iff (o : ParseOptions) (s : PS) (str : List Char) (r : List Char) :
+    (∃ s', lexString o s = .ok (str, s') ∧ s'.rest = r) ↔ ∃ t, s.rest = t ++ r ∧ LString o t str := by
+  constructor
+  · rintro ⟨s', h, rfl⟩
+    unfold lexString at h
+    simp only [PS.beginFragment_fst, PS.beginFragment_snd] at h
+    split at h
+    · cases h
+    · rename_i d r0 hr
+      split at h
+      · rename_i hd
+        split at h
+        · cases h
+        · rename_i str' r' pos' q hv
+          split at h
+          · cases h
+          · rename_i s1 h1
+            cases h
+            have hp := endFragment_rest h1
+            obtain ⟨t, cs, hl, hb, ha⟩ := (strLoopO_sound o (bad := s.reserve.bad) r0).1 _ _ _ _ _ _ _ hv
+            simp only [List.nil_append] at ha
+            subst ha
+            refine ⟨'"' :: (t ++ ['"']), ?_, .mk t _ hb⟩
+            rw [hp.1]
+            simp only [beginFragment_rest] at hr
+            rw [hr, hd, hl]
+            simp
+      · cases h
+  · rintro ⟨t, hs, hg⟩
+    cases hg with
+    | mk body cs hb =>
+      have hs' : s.reserve.rest = '"' :: (body ++ '"' :: r) := by
+        simp only [beginFragment_rest, hs]; simp
+      obtain ⟨p, q, hl⟩ := strLoopO_complete (bad := s.reserve.bad) hb (body ++ '"' :: r) [] r
+        (s.reserve.pos + '"'.utf8Size) (by simp)
+      simp only [List.nil_append] at hl
+      have hend : ∃ s2, ({ s.reserve with rest := r, pos := p } : PS).endFragment s.cm.size = .ok s2 ∧
+          s2.rest = r := by
+        unfold PS.endFragment
+        have : ({ s.reserve with rest := r, pos := p } : PS).cm[s.cm.size]? = some ⟨s.pos, s.pos, 0⟩ := by
+          simp [PS.reserve]
+        rw [this]
+        exact ⟨_, rfl, rfl⟩
+      obtain ⟨s2, h2, hr2⟩ := hend
+      exact ⟨s2, by simp only [lexString, PS.beginFragment_fst, PS.beginFragment_snd, hs', if_true, strLoop, hl, h2], hr2⟩
+
+end JsonVerif
